@@ -2,6 +2,7 @@ import Ecal.Drivers.Util
 import Ecal.Drivers.EvalCommon
 import Ecal.Model.Prims
 import Ecal.Model.FragB
+import Ecal.Model.ValidateS
 /-!
 Model side of C06 (payload formats: see go/cmd/harness/c06.go).
 
@@ -158,6 +159,30 @@ def fragOK (prog : Program) : Bool :=
     prog.interp.all fun e => match e.2 with | .ast a => Ecal.FragB.fragB 400 a | .text _ => true
   | none => false
 
+/-- the run the C06 theorems are about: validation by the structural twin `validateS`, then `Ecal.Ev.eval` -/
+def runProgramS (prog : Program) (fuel : Nat := defaultFuel) : Result :=
+  match prog.ast with
+  | none => .noparse
+  | some n =>
+    match Ecal.ValidateS.validateS 4000 n with
+    | .error e => .invalid e
+    | .ok _ =>
+      let m : Ecal.Ev.M Val := do
+        let g ← newScope "GlobalScope"
+        eval fuel g n
+      let (r, st) := m.run.run { interp := prog.interp }
+      .done r st
+
+/-- the twin agrees with the shared model's `validate` (same outcome, same error) -/
+def twinOK (prog : Program) : Bool :=
+  match prog.ast with
+  | none => true
+  | some n =>
+    match Ecal.ValidateS.validateS 4000 n, validate n with
+    | .ok _, .ok _ => true
+    | .error a, .error b => sigText a == sigText b
+    | _, _ => false
+
 def hasCycleKf (label : String) : Bool := label == "cyclic"
 
 def runCase (payload : String) : String :=
@@ -166,9 +191,10 @@ def runCase (payload : String) : String :=
     match decodePayload (" ".intercalate rest) with
     | none => "bad-payload"
     | some prog =>
-      let res := runProgram prog
+      let res := runProgramS prog
       let (c, log) := classify res
       let outside := match c with | .unsup _ => true | .hang => true | _ => false
+      if !(twinOK prog) then "TWIN-MISMATCH validateS differs from Ev.validate" else
       if label == "random" && heapCyclic res && outside then
         -- outside the model AND a cyclic heap: props/C06.py accepts Go's `CRASH so-stringify` here as the known finding
         "UNSUP a container that contains itself, outcome outside the model\tcyc=1"
